@@ -409,6 +409,46 @@ async fn prog_uring(name: String, l: Log, p: Value) -> turmoil::Result {
     Ok(())
 }
 
+fn clocks() -> String {
+    format!("elapsed {:?} sim {:?} epoch {:?}", turmoil::elapsed(), turmoil::sim_elapsed(), turmoil::since_epoch())
+}
+
+/// Lives in a background task of every host; its destructor runs when the host is
+/// crashed or bounced (between two steps, outside the host's runtime) and reads the
+/// host-side clocks there.
+struct ClockGuard(Log, String);
+impl Drop for ClockGuard {
+    fn drop(&mut self) {
+        // nothing to read once the simulation itself is being dropped
+        if turmoil::sim_elapsed().is_some() {
+            if let Ok(mut v) = self.0.try_borrow_mut() {
+                v.push(format!("{} guard dropped: {}", self.1, clocks()));
+            }
+        }
+    }
+}
+
+/// A host whose software returns Ok(()) and leaves background tasks behind.
+async fn prog_finisher(name: String, l: Log, p: Value) -> turmoil::Result {
+    let linger = p["linger_ms"].as_u64().unwrap_or(0);
+    let (l2, n2) = (l.clone(), name.clone());
+    tokio::task::spawn_local(async move {
+        let _g = ClockGuard(l2.clone(), format!("{}/bg", n2));
+        let mut iv = tokio::time::interval(Duration::from_millis(3));
+        let mut k = 0u64;
+        loop {
+            iv.tick().await;
+            k += 1;
+            if k % 8 == 0 {
+                log(&l2, &n2, format!("bg tick {} {}", k, clocks()));
+            }
+        }
+    });
+    tokio::time::sleep(Duration::from_millis(linger)).await;
+    log(&l, &name, format!("finisher returns: {}", clocks()));
+    Ok(())
+}
+
 fn one_run(case: &Value, wall_sleep_us: u64) -> (Vec<String>, String) {
     let cfg = &case["cfg"];
     let v6 = cfg["ipv6"].as_bool().unwrap_or(false);
@@ -455,7 +495,16 @@ fn one_run(case: &Value, wall_sleep_us: u64) -> (Vec<String>, String) {
         let starts = Rc::new(RefCell::new(0u32));
         sim.host(name.clone(), move || {
             let (name, kind, p, l, starts) = (name.clone(), kind.clone(), p.clone(), l.clone(), starts.clone());
+            if turmoil::sim_elapsed().is_some() {
+                // restart by bounce: the factory runs between two steps, outside the host's runtime
+                log(&l, &name, format!("factory called: {}", clocks()));
+            }
+            let guard = ClockGuard(l.clone(), name.clone());
             async move {
+                tokio::task::spawn_local(async move {
+                    let _g = guard;
+                    futures_util::future::pending::<()>().await;
+                });
                 *starts.borrow_mut() += 1;
                 log(&l, &name, format!("start #{} kind {}", starts.borrow(), kind));
                 match kind.as_str() {
@@ -465,6 +514,7 @@ fn one_run(case: &Value, wall_sleep_us: u64) -> (Vec<String>, String) {
                     "tcp_client" => prog_tcp_client(name, l, p).await,
                     "spawner" => prog_spawner(name, l, p).await,
                     "racer" => prog_racer(name, l, p).await,
+                    "finisher" => prog_finisher(name, l, p).await,
                     "mc_member" => prog_mc_member(name, l, v6, p).await,
                     "mc_sender" => prog_mc_sender(name, l, v6, p).await,
                     "fs" => prog_fs(name, l, p).await,
